@@ -77,7 +77,7 @@ def rand_member_type(r, spec, depth, structs_pool, f64=0.05, atomics=False):
     if depth > 0 and structs_pool and k < 0.36:
         return W.ST(r.choice(structs_pool))
     if atomics and k < 0.45:
-        return W.AT(r.choice(["u32", "i32"]))
+        return W.AT(r.choice(["u32", "i32", "f32"]))
     return rand_leaf(r, f64)
 
 
@@ -368,6 +368,33 @@ def finish_entries(r, spec, namer, simple=True):
 # families
 
 
+def twin_group(r, spec, namer):
+    """a further group with the same binding indices and WGSL types as an existing one, but
+    another address space / access mode (the two layouts must still differ)"""
+    res = [g for g in spec.globals if g.is_resource()]
+    groups = sorted({g.group for g in res})
+    if not groups or len(groups) >= 8:
+        return
+    src = r.choice(groups)
+    new = len(groups)
+    for g in [x for x in res if x.group == src]:
+        t = Global(namer.fresh("g"), g.kind, space=g.space, access=g.access, ty=g.ty,
+                   tex=dict(g.tex) if g.tex else None, comparison=g.comparison, group=new,
+                   binding=g.binding)
+        if g.kind == "buffer":
+            no_rt = not (g.ty[0] == "a" and g.ty[2] is None) and not (
+                g.ty[0] == "st" and W.has_runtime_array(spec.structs[g.ty[1]]))
+            has_at = W.contains_kind(g.ty, spec.structs, ()) or "atomic" in W.wgsl(g.ty) or (
+                g.ty[0] == "st" and any("atomic" in W.wgsl(m["ty"])
+                                         for n in [g.ty[1]] + W.reachable_structs(g.ty, spec.structs)
+                                         for m in spec.structs[n].members))
+            if g.space == "storage" and not has_at:
+                t.access = "read" if g.access == "read_write" else "read_write"
+            elif g.space == "uniform" and no_rt:
+                t.space, t.access = "storage", "read"
+        spec.globals.append(t)
+
+
 def free_binding(decls, group):
     used = {g.binding for g in decls if g.group == group}
     b = 0
@@ -424,6 +451,10 @@ def fam_bind(r, idx, sweep=None):
     if "compute" in stages and r.random() < 0.3:
         spec.globals.append(Global(namer.fresh("wg"), "workgroup", ty=r.choice(
             [W.A(W.S("f32"), 8), W.AT("u32"), W.V(4, "f32")])))
+    if r.random() < 0.2:
+        twin_group(r, spec, namer)
+    # private / workgroup / push-constant declarations anywhere among the resources
+    r.shuffle(spec.globals)
     shape = build_graph(r, spec, namer, r.choice([0, 1, 2, 3, 4, 6, 9, 14]), stages)
     spec.families.append("graph:" + shape)
     pcs = [g for g in spec.globals if g.kind == "push"]
@@ -435,10 +466,15 @@ def fam_bind(r, idx, sweep=None):
         form, e_, s_ = buffer_forms(pcs[0], spec.structs, prefer=r.randrange(8))[0]
         h.actions.append(Action("access", r.choice(S_SITES), glob=[pcs[0].name], form=form,
                                 expr=e_, stmt=None))
-        spec.funcs.append(h)
-        for e in r.sample(spec.entries, min(len(spec.entries), r.choice([1, 1, 2]))):
-            e.actions.append(Action("call", r.choice(S_SITES), callee=h.name, expr=None,
-                                    stmt="%s();" % h.name))
+        mid = Func(namer.fresh("fn_pcmid_"), False)
+        mid.actions.append(Action("call", r.choice(S_SITES), callee=h.name, expr=None,
+                                  stmt="%s();" % h.name))
+        spec.funcs += [h, mid]
+        for e in r.sample(spec.entries, min(len(spec.entries), r.choice([1, 2, 2, 3]))):
+            # the leaf directly, through the middle helper, or both in either order
+            for callee in r.choice([[h], [mid], [h, mid], [mid, h], [mid]]):
+                e.actions.append(Action("call", r.choice(S_SITES), callee=callee.name,
+                                        expr=None, stmt="%s();" % callee.name))
     finish_entries(r, spec, namer)
     return spec
 
@@ -480,6 +516,24 @@ def fam_struct(r, idx):
                 s = make_struct(r, spec, namer, list(pool), depth=2, f64=0.08,
                                 atomics=r.random() < 0.15)
             pool.append(s)
+        if style in ("host", "friendly", "glam10") and r.random() < 0.25 and pool:
+            # two structs with different names and identical bodies, both used as members
+            a = pool[0]
+            b = namer.fresh("Twin")
+            b = b[0].upper() + b[1:]
+            spec.structs[b] = W.StructDef(b, [dict(m) for m in spec.structs[a].members])
+            holder = namer.fresh("Pair")
+            holder = holder[0].upper() + holder[1:]
+            spec.structs[holder] = W.StructDef(holder, [
+                {"name": namer.fresh("first"), "ty": W.ST(a)},
+                {"name": namer.fresh("second"), "ty": W.ST(b)},
+                {"name": namer.fresh("more"), "ty": W.A(W.ST(b), 2)},
+                {"name": namer.fresh("again"), "ty": W.ST(a)}])
+            if not any(W.has_runtime_array(spec.structs[x]) for x in (a,)):
+                pool.append(holder)
+            else:
+                del spec.structs[holder]
+                del spec.structs[b]
         root = pool[-1]
         space = "uniform" if style == "uniform" else "storage"
         form = r.choice(["direct", "direct", "array", "rtarray", "rtmember"]) \
@@ -761,6 +815,8 @@ def role_structs(r, spec, namer):
         v2.result = {"kind": "position"}
         ents.append(v2)
     spec.funcs = []
+    if r.random() < 0.5:
+        r.shuffle(ents)  # e.g. the consumer of an inter-stage struct before its producer
     spec.entries = ents
     # a couple of real accesses so that entries are not empty
     for e in ents:
@@ -933,6 +989,8 @@ def fam_entry(r, idx):
     # a little state so entries can touch something
     spec.globals.append(Global(namer.fresh("g"), "buffer", space="storage", access="read_write",
                                ty=W.A(W.S("f32"), 4), group=0, binding=0))
+    if r.random() < 0.6:
+        r.shuffle(ents)  # declaration order of entry points is unrelated to their stage
     spec.entries = ents
     spec.funcs = []
     for e in ents:
@@ -1202,7 +1260,8 @@ def directed_struct_specs():
     # atomics
     s = new("atomics")
     st(s, "Counters", [("a", W.AT("u32"), None), ("b", W.AT("i32"), None),
-                       ("hist", W.A(W.AT("u32"), 4), None), ("pad", W.S("u32"), None)])
+                       ("hist", W.A(W.AT("u32"), 4), None), ("pad", W.S("u32"), None),
+                       ("fa", W.AT("f32"), None), ("fh", W.A(W.AT("f32"), 2), None)])
     _storage(s, "c", W.ST("Counters"), 0)
     _compute_entry(s)
     # uniform, well-formed (encase UniformBuffer path)
